@@ -46,6 +46,12 @@ var fragPool = []string{
 	`<bpmn:businessRuleTask id="BRT%N" implementation="##unspecified" name="%T"/>`,
 	`<bpmn:manualTask id="MT%N" name="%T"/>`,
 	`<bpmn:callActivity id="CA%N" calledElement="Other_Process" name="%T"><bpmn:extensionElements><olive:calledElement processId="Other_Process"/></bpmn:extensionElements></bpmn:callActivity>`,
+	// extension attributes with explicit values, also the "other" value of a flag and zero / negative numbers
+	`<bpmn:callActivity id="CAf%N" calledElement="Other_Process"><bpmn:extensionElements><olive:calledElement definitionId="Defs_X" processId="Other_Process" propagateAllChildVariables="false"/></bpmn:extensionElements></bpmn:callActivity>`,
+	`<bpmn:callActivity id="CAt%N" calledElement="Other_Process"><bpmn:extensionElements><olive:calledElement processId="%T" propagateAllChildVariables="true"/></bpmn:extensionElements></bpmn:callActivity>`,
+	`<bpmn:businessRuleTask id="BRd%N"><bpmn:extensionElements><olive:calledDecision decisionId="%T" result="%T"/></bpmn:extensionElements></bpmn:businessRuleTask>`,
+	`<bpmn:serviceTask id="OLz%N"><bpmn:extensionElements><olive:taskDefinition type="" timeout="0s" retries="0" target="%T" metadata="{&quot;k&quot;:0}"/></bpmn:extensionElements></bpmn:serviceTask>`,
+	`<bpmn:serviceTask id="OLn%N"><bpmn:extensionElements><olive:taskDefinition type="t" retries="-1"/></bpmn:extensionElements></bpmn:serviceTask>`,
 	`<bpmn:subProcess id="SP%N" triggeredByEvent="false" name="%T"><bpmn:startEvent id="SPs%N"><bpmn:outgoing>SPf%N</bpmn:outgoing></bpmn:startEvent><bpmn:endEvent id="SPe%N"><bpmn:incoming>SPf%N</bpmn:incoming></bpmn:endEvent><bpmn:sequenceFlow id="SPf%N" sourceRef="SPs%N" targetRef="SPe%N"/></bpmn:subProcess>`,
 	`<bpmn:subProcess id="ESP%N" triggeredByEvent="true"><bpmn:startEvent id="ESPs%N" isInterrupting="false"><bpmn:signalEventDefinition id="ESPd%N" signalRef="Sig_R"/></bpmn:startEvent></bpmn:subProcess>`,
 	`<bpmn:exclusiveGateway id="XG%N" name="%T" gatewayDirection="Diverging"/>`,
